@@ -26,7 +26,7 @@ LEVEL_TEXT = ("Real end-to-end runs on random coastlines (islands, one-cell chan
 LEVEL_NOTE = "The valid region and sea cells are computed independently from the grid file (mask_rho, subgrid limits). Trusts the spied velocities as the scheme's output (their correctness is C01/C02)."
 RULE = ("case = world (mask, flow, subgrid) x run (scheme, diffusion, release, IBM schedule, layout). Non-trivial: at least one move cancelled by land or one particle killed at the "
         "open boundary or one inactive particle held; distinct by case parameters.")
-MANDATORY = ["move_ending_exactly_on_a_land_cell_edge", "warm_start_records_checked_against_earlier_deaths", "record_after_everybody_died", "records_checked_against_deaths", "moved", "cancelled_by_land", "killed_at_boundary", "inactive_held", "diffusion_on", "scheme_EF", "scheme_RK2", "scheme_RK4",
+MANDATORY = ["inactive_particles_followed_over_the_restart", "lonlat_release_on_off_diagonal_subgrid", "move_ending_exactly_on_a_land_cell_edge", "warm_start_records_checked_against_earlier_deaths", "record_after_everybody_died", "records_checked_against_deaths", "moved", "cancelled_by_land", "killed_at_boundary", "inactive_held", "diffusion_on", "scheme_EF", "scheme_RK2", "scheme_RK4",
              "tracker_updates", "records_checked", "release_near_rim", "subgrid", "dense", "one_cell_channel", "release_event_adding_nobody", "reversed_time"]
 ASSUMPTIONS = ["release positions in sea cells of the valid region (as the property quantifies)"]
 TIMEOUT = {"quick": 900, "thorough": 3400}
@@ -161,14 +161,25 @@ def build(case: dict[str, Any]):
         kill = {"2": [p for p in range(npart) if rows[p][0] == 0]}  # whoever has not left by then is killed: everybody present dies in that step at the latest
     elif nk:
         kill[str(int(rng.integers(1, 6)))] = [int(p) for p in rng.choice(npart, size=nk, replace=False)]
+    relcols = ["release_time", "mult", "X", "Y", "Z"]
+    sub_ = case["subgrid"]
+    if sub_ and sub_[0] != sub_[2] and case["idx"] % 2 == 0 and not case.get("tie"):
+        # release by longitude/latitude (here lon = X and lat = Y numerically) on a subgrid whose corner is off the diagonal; rows a little off the rim,
+        # the conversion being accurate to the solver tolerance only
+        relcols = ["release_time", "mult", "lon", "lat", "Z"]
+        for r_ in relrows:
+            r_[2] = float(min(max(r_[2], xlo + 0.01), xhi - 0.01))
+            r_[3] = float(min(max(r_[3], ylo + 0.01), yhi - 0.01))
     run = dict(start=start, stop=str(tadd(start, sg * nsteps * dt)), dt=dt, reversed=rev, advection=case["scheme"], diffusion=case["diffusion"], subgrid=case["subgrid"],
-               release=dict(columns=["release_time", "mult", "X", "Y", "Z"], rows=relrows, header=True),
+               release=dict(columns=relcols, rows=relrows, header=True),
                ibm=dict(module=C.REC_IBM, kill=kill, deactivate=deact, log=False),
                output=dict(period=dt * 2, layout=case["layout"]))
     if case.get("warm") and not case.get("all_die"):
         run["ibm"]["kill_time"] = kill_time
+        # one particle is switched off before the restart record; `active` is part of the output so that the restart can carry it on
+        run["ibm"]["deactivate_time"] = {str(tadd(start, sg * 1 * dt)): [1]}
     if case.get("warm") and not case.get("all_die"):
-        run["output"] = dict(period=dt * 2, layout="sparse", numrec=3)
+        run["output"] = dict(period=dt * 2, layout="sparse", numrec=3, instance=dict(pid="i4", X="f8", Y="f8", Z="f8", active="i1"))
     return dict(world=w, run=run), M, (xlo, xhi, ylo, yhi), near_rim
 
 
@@ -355,6 +366,7 @@ def run_case(case: dict[str, Any], wd: Path) -> dict[str, Any]:
     sit["one_cell_channel"] = int(case["mask_kind"] in (1, 3))
     sit["release_event_adding_nobody"] = int(case["idx"] % 2 == 0)
     sit["reversed_time"] = int(bool(case.get("reversed")))
+    sit["lonlat_release_on_off_diagonal_subgrid"] = int("lon" in scn["run"]["release"]["columns"])
     sit["move_ending_exactly_on_a_land_cell_edge"] = int(bool(case.get("tie")))
     if not res.ok:
         V.append(C.viol(f"run did not complete: {res.exc}", tb=res.tb[-1500:], **desc))
@@ -386,6 +398,15 @@ def run_case(case: dict[str, Any], wd: Path) -> dict[str, Any]:
                 k_restart = 4
                 dead_before = {p for p, s_ in dead_at.items() if s_ < k_restart}
                 sit["warm_start_records_checked_against_earlier_deaths"] = len(recs2) * int(bool(dead_before))
+                # inactive particles are not moved horizontally - also not after the restart
+                last0 = read_outputs(res.outputs[:1])[0].records[-1]
+                held = {int(p_): (float(x_), float(y_)) for p_, x_, y_, a_ in zip(last0.pid, last0.vars["X"], last0.vars["Y"], last0.vars["active"]) if not a_}
+                sit["inactive_particles_followed_over_the_restart"] = len(held)
+                for r in recs2:
+                    for p_, x_, y_ in zip(r.pid, r.vars["X"], r.vars["Y"]):
+                        if int(p_) in held and (float(x_), float(y_)) != held[int(p_)] and len(V) < 3:
+                            V.append(C.viol(f"after a warm start from {res.outputs[0].name}: pid {int(p_)}, inactive in the restart record at {held[int(p_)]}, is at ({float(x_)},{float(y_)}) "
+                                            f"in the record at {r.time}", **desc))
                 for r in recs2:
                     back = sorted(set(int(p) for p in r.pid) & dead_before)
                     if back:
